@@ -389,19 +389,36 @@ class ColumnBackend(PolarsSchemaBackend):
         if hasattr(schema, "default") and schema.default is None:
             return check_obj
 
-        if isinstance(schema.default, pl.Expr):
-            default_value = schema.default
-        else:
-            default_value = pl.lit(
-                schema.default,
-                # a column may be declared without a dtype
-                dtype=None if schema.dtype is None else schema.dtype.type,
-            )
-        expr = pl.col(schema.selector)
-        if is_float_dtype(check_obj, schema.selector):
-            # both NaN and null count as missing values in float columns
-            expr = expr.fill_nan(default_value).fill_null(default_value)
-        else:
-            expr = expr.fill_null(default_value)
+        try:
+            if isinstance(schema.default, pl.Expr):
+                default_value = schema.default
+            else:
+                default_value = pl.lit(
+                    schema.default,
+                    # a column may be declared without a dtype
+                    dtype=None if schema.dtype is None else schema.dtype.type,
+                )
+            expr = pl.col(schema.selector)
+            if is_float_dtype(check_obj, schema.selector):
+                # both NaN and null count as missing values in float columns
+                expr = expr.fill_nan(default_value).fill_null(default_value)
+            else:
+                expr = expr.fill_null(default_value)
 
-        return check_obj.with_columns(expr)
+            filled = check_obj.with_columns(expr)
+            # the default may not fit the declared dtype or the actual type of
+            # the column: resolve the plan here instead of at collect time
+            filled.collect_schema()
+        except pl.exceptions.PolarsError as exc:
+            raise SchemaError(
+                schema=schema,
+                data=check_obj,
+                message=(
+                    f"Error while setting default {schema.default!r} on "
+                    f"column '{schema.selector}': {exc}"
+                ),
+                failure_cases=repr(schema.default),
+                check=f"set_default({schema.default!r})",
+                reason_code=SchemaErrorReason.PARSER_ERROR,
+            ) from exc
+        return filled
